@@ -82,6 +82,34 @@ Proof.
 Qed.
 
 (* ------------------------------------------------------------------------------------------ *)
+(* `except Exception as exc: add_note...; raise` *)
+
+Lemma annotate_cls : forall e ns, cls (annotate e ns) = cls e.
+Proof. intros e ns. unfold annotate. destruct (is_exception (cls e)); reflexivity. Qed.
+
+Lemma annotate_msg : forall e ns, msg (annotate e ns) = msg e.
+Proof. intros e ns. unfold annotate. destruct (is_exception (cls e)); reflexivity. Qed.
+
+Lemma annotate_notes_exc : forall e ns, is_exception (cls e) = true -> notes (annotate e ns) = notes e ++ ns.
+Proof. intros e ns H. unfold annotate. rewrite H. reflexivity. Qed.
+
+Lemma annotate_base : forall e ns, is_exception (cls e) = false -> annotate e ns = e.
+Proof. intros e ns H. unfold annotate. rewrite H. reflexivity. Qed.
+
+Lemma exn_of_fault_cls : forall fe c p, cls (exn_of_fault fe c p) = c.
+Proof. intros. unfold exn_of_fault. rewrite annotate_cls. reflexivity. Qed.
+
+Lemma exn_of_fault_msg : forall fe c p, msg (exn_of_fault fe c p) = py_str c p.
+Proof. intros. unfold exn_of_fault. rewrite annotate_msg. reflexivity. Qed.
+
+Lemma exn_of_fault_notes : forall fe c p, is_exception c = true ->
+  notes (exn_of_fault fe c p) = [note_of_event fe].
+Proof. intros. unfold exn_of_fault. rewrite annotate_notes_exc by assumption. reflexivity. Qed.
+
+Lemma exn_of_fault_base : forall fe c p, is_exception c = false -> exn_of_fault fe c p = raise_of c p.
+Proof. intros. unfold exn_of_fault. apply annotate_base. assumption. Qed.
+
+(* ------------------------------------------------------------------------------------------ *)
 (* the flat executor *)
 
 Section Flat.
@@ -137,7 +165,7 @@ Section Flat.
     flat_exec beh evs =
     match first_fault beh evs with
     | None => (Ok tt, evs)
-    | Some (pre, fe, c, p) => (Raise (add_note (raise_of c p) (note_of_event fe)), pre ++ [fe])
+    | Some (pre, fe, c, p) => (Raise (annotate (raise_of c p) [note_of_event fe]), pre ++ [fe])
     end.
   Proof.
     induction evs as [|ev evs IH]; [reflexivity|]. simpl.
@@ -214,8 +242,7 @@ Section Flat.
   (* ---------------------------------------------------------------------------------------- *)
   (* pipeline and exposure *)
 
-  Definition exn_of (fe : event) (c : ecls) (p : string) : exn :=
-    add_note (raise_of c p) (note_of_event fe).
+  Definition exn_of (fe : event) (c : ecls) (p : string) : exn := exn_of_fault fe c p.
 
   Lemma processor_run_spec : forall r s pl,
     processor_run beh r s pl =
@@ -240,7 +267,7 @@ Section Flat.
   (* sequential observation *)
 
   Definition obs_exn (r : run) (fe : event) (c : ecls) (p : string) : exn :=
-    add_notes (exn_of fe c p) (obs_header :: map param_note (r_params r)).
+    annotate (exn_of fe c p) (obs_header :: map param_note (r_params r)).
 
   Lemma obs_seq_ok : forall pl n runs,
     first_fault beh (sched_obs pl n runs) = None ->
@@ -333,7 +360,7 @@ Section Flat.
     fitness beh pl n cand =
     match first_fault beh (sched_expo cand pl n) with
     | None => Ok (seq 0 n)
-    | Some (pre, fe, c, p) => Raise (add_note (exn_of fe c p) fit_note)
+    | Some (pre, fe, c, p) => Raise (annotate (exn_of fe c p) [fit_note])
     end.
   Proof.
     intros. unfold fitness. rewrite exposure_spec.
@@ -406,12 +433,12 @@ Section Flat.
       In cand cs -> first_fault beh (sched_expo cand pl n) <> None ->
       exists cand' pre fe c p,
         In cand' cs /\ first_fault beh (sched_expo cand' pl n) = Some (pre, fe, c, p) /\
-        compute (map (fitness beh pl n) cs) = Raise (add_note (exn_of fe c p) fit_note).
+        compute (map (fitness beh pl n) cs) = Raise (annotate (exn_of fe c p) [fit_note]).
     Proof.
       intros pl n cs cand Hin Hf.
       assert (exists e0, In (Raise e0) (map (fitness beh pl n) cs)) as [e0 He0].
       { destruct (first_fault beh (sched_expo cand pl n)) as [[[[pre fe] c] p]|] eqn:E; [|congruence].
-        exists (add_note (exn_of fe c p) fit_note). apply in_map_iff. exists cand. split; [|exact Hin].
+        exists (annotate (exn_of fe c p) [fit_note]). apply in_map_iff. exists cand. split; [|exact Hin].
         rewrite fitness_spec, E. reflexivity. }
       destruct (compute_raise _ _ He0) as (e & Hine & Hc).
       apply in_map_iff in Hine as (c' & Hr' & Hin').
@@ -439,8 +466,9 @@ Section Flat.
       exists cand pre fe c p,
         In cand cs /\ first_fault beh (sched_expo cand pl n) = Some (pre, fe, c, p) /\
         if in_threads
-        then substrb (py_str c p) (msg e') = true /\ substrb (note_of_event fe) (msg e') = true
-        else e' = add_note (exn_of fe c p) fit_note.
+        then substrb (py_str c p) (msg e') = true /\
+             (is_exception c = true -> substrb (note_of_event fe) (msg e') = true)
+        else e' = pep479 (annotate (exn_of fe c p) [fit_note]).
 
     Lemma evolve_surfaces : forall pl n gens g cand,
       In g gens -> In cand g -> first_fault beh (sched_expo cand pl n) <> None ->
@@ -459,8 +487,11 @@ Section Flat.
         rewrite Hcomp. eexists. split; [reflexivity|].
         exists cd, pre, fe, c, p. split; [apply in_or_app; left; exact Hin|]. split; [exact Hff|].
         split.
-        + apply (transport_msg (add_note (exn_of fe c p) fit_note)).
-        + apply transport_notes. simpl. left. reflexivity.
+        + pose proof (transport_msg (annotate (exn_of fe c p) [fit_note])) as Hm.
+          unfold exn_of in Hm. rewrite annotate_msg, exn_of_fault_msg in Hm. exact Hm.
+        + intros Hex. apply transport_notes. unfold exn_of.
+          rewrite annotate_notes_exc by (rewrite exn_of_fault_cls; exact Hex).
+          rewrite exn_of_fault_notes by exact Hex. simpl. left. reflexivity.
     Qed.
 
     Theorem calib_surfaces : forall pl n init gens cand,
